@@ -5,9 +5,12 @@
 import XgiModel.C12.LemmasMat
 
 set_option linter.unnecessarySeqFocus false
+set_option linter.unusedSectionVars false
 
 namespace Xgi.C12
 open Xgi
+
+variable {K : Type} [Field K] [LinearOrder K] [IsStrictOrderedRing K]
 
 /-! ### small sum lemmas -/
 
@@ -18,14 +21,14 @@ theorem sum_map_sub' {α R : Type} [CommRing R] (l : List α) (f g : α → R) :
   | cons a t ih => simp only [List.map_cons, List.sum_cons, ih]; ring
 
 /-- Lagrange: |l|·Σx² − (Σx)² = Σ_{i<j} (x_i − x_j)² -/
-theorem lagrange (l : List PyId) (x : PyId → ℚ) :
-    (l.length : ℚ) * (l.map (fun a => x a * x a)).sum - (l.map x).sum * (l.map x).sum
+theorem lagrange (l : List PyId) (x : PyId → K) :
+    (l.length : K) * (l.map (fun a => x a * x a)).sum - (l.map x).sum * (l.map x).sum
       = ((pairs l).map (fun ab => (x ab.1 - x ab.2) ^ 2)).sum := by
   induction l with
   | nil => simp [pairs]
   | cons a t ih =>
     have h1 : ((t.map (fun b => (a, b))).map (fun ab => (x ab.1 - x ab.2) ^ 2)).sum
-        = (t.length : ℚ) * (x a * x a) - 2 * x a * (t.map x).sum + (t.map (fun b => x b * x b)).sum := by
+        = (t.length : K) * (x a * x a) - 2 * x a * (t.map x).sum + (t.map (fun b => x b * x b)).sum := by
       clear ih
       induction t with
       | nil => simp
@@ -79,7 +82,7 @@ theorem lapF_rowsum (N : List PyId) (hN : N.Nodup) (n : PyId) (hn : n ∈ N) (es
 /-! ### quadratic forms of matrices in functional form -/
 
 /-- xᵀ G x over the label list N -/
-def quadF (N : List PyId) (G : PyId → PyId → ℚ) (x : PyId → ℚ) : ℚ :=
+def quadF (N : List PyId) (G : PyId → PyId → K) (x : PyId → K) : K :=
   (N.map (fun n => x n * (N.map (fun m => G n m * x m)).sum)).sum
 
 theorem quadQ_map_map (N : List PyId) (G : PyId → PyId → ℚ) (x : PyId → ℚ) :
@@ -91,12 +94,12 @@ theorem quadQ_map_map (N : List PyId) (G : PyId → PyId → ℚ) (x : PyId → 
   apply List.map_congr_left; intro n _
   simp [qdot_map_map]
 
-theorem quadF_add (N : List PyId) (G1 G2 : PyId → PyId → ℚ) (x : PyId → ℚ) :
+theorem quadF_add (N : List PyId) (G1 G2 : PyId → PyId → K) (x : PyId → K) :
     quadF N (fun n m => G1 n m + G2 n m) x = quadF N G1 x + quadF N G2 x := by
   unfold quadF
   simp only [add_mul, List.sum_map_add, mul_add]
 
-theorem quadF_smul (N : List PyId) (G : PyId → PyId → ℚ) (c : ℚ) (x : PyId → ℚ) :
+theorem quadF_smul (N : List PyId) (G : PyId → PyId → K) (c : K) (x : PyId → K) :
     quadF N (fun n m => G n m * c) x = quadF N G x * c := by
   unfold quadF
   have : ∀ n, (N.map (fun m => G n m * c * x m)).sum = (N.map (fun m => G n m * x m)).sum * c := by
@@ -104,7 +107,7 @@ theorem quadF_smul (N : List PyId) (G : PyId → PyId → ℚ) (c : ℚ) (x : Py
   simp only [this]
   rw [← List.sum_map_mul_right]; congr 1; apply List.map_congr_left; intro n _; ring
 
-theorem quadF_zero (N : List PyId) (x : PyId → ℚ) : quadF N (fun _ _ => 0) x = 0 := by
+theorem quadF_zero (N : List PyId) (x : PyId → K) : quadF N (fun _ _ => (0 : K)) x = 0 := by
   unfold quadF; simp
 
 theorem cast_edgeLapF (p : PyId × List PyId) (d : Nat) (n m : PyId) :
@@ -159,7 +162,7 @@ theorem lapF_quad (N : List PyId) (hN : N.Nodup) (es : List (PyId × List PyId))
     rw [this, quadF_add, edge_quad N hN p d hp.1 hp.2.1 hp.2.2, ih (fun q hq => hes q (by simp [hq]))]
     simp
 
-theorem pairs_sq_nonneg (l : List PyId) (x : PyId → ℚ) : 0 ≤ ((pairs l).map (fun ab => (x ab.1 - x ab.2) ^ 2)).sum := by
+theorem pairs_sq_nonneg (l : List PyId) (x : PyId → K) : 0 ≤ ((pairs l).map (fun ab => (x ab.1 - x ab.2) ^ 2)).sum := by
   apply List.sum_nonneg; intro v hv
   simp only [List.mem_map] at hv
   obtain ⟨ab, _, rfl⟩ := hv
